@@ -336,7 +336,7 @@ Proof.
     destruct pending; [eapply flag_same; [|exact H1]; repeat split|].
     pose proof (process_min_flag s1 H1) as H2. destruct (process_min K s1) as [s2 did]. cbn [fst] in H2.
     destruct did; (eapply flag_same; [|exact H2]; repeat split).
-  - apply FS. repeat split.
+  - apply FS. idle_cases; repeat split.
   - eapply flag_same; [|apply (flag_same _ _ (report_failures_fl (cache s) s) H)]. repeat split.
   - destruct (refresh_flag s H) as (H0 & _).
     pose proof (all_empty_scan_fl (cache (refresh K s)) (refresh K s) true) as F1.
@@ -745,7 +745,7 @@ Proof.
       destruct did; (apply Rnp_R; [|cbn [pc set_pc apc]; exact Hp3]);
         (destruct HR3 as [D1 D2 D3 D4 D5 D7]; constructor; cbn; auto).
   - (* PIdle1 *)
-    exists []. eapply R_asame; [|exact HR]. repeat split. cbn. now rewrite Hpc.
+    exists []. eapply R_asame; [|exact HR]. idle_cases; (repeat split; cbn; now rewrite Hpc).
   - (* PIdle2 *)
     exists []. eapply R_asame; [|exact HR].
     eapply asame_trans; [apply (report_failures_sim (cache s) s)|]. repeat split. cbn.
